@@ -902,6 +902,12 @@ def Engine.fileWritten (e : Engine) (id : Nat) (o : Op) : Engine :=
   | .disconnect _ => { e with state := .pendingDisconnect, pendingWC := e.pendingWC ++ [id] }
   | _ => { e with pendingWC := e.pendingWC ++ [id] }
 
+/-- the time the server has to answer a PINGREQ runs from its transmission: min(ping timeout, K/2) from now -/
+def Engine.armPingDeadline (e : Engine) (o : Op) : Engine :=
+  match o.packet, e.settings with
+  | .pingreq, some s => { e with pingDeadline := some (e.now + min e.cfg.pingTimeout (s.serverKeepAlive * 500)) }
+  | _, _ => e
+
 /-- `on_current_operation_fully_written`; `none` = `unwrap()` panic -/
 def Engine.onFullyWritten (e : Engine) : Option Engine :=
   match e.current with
@@ -912,7 +918,8 @@ def Engine.onFullyWritten (e : Engine) : Option Engine :=
     | some o =>
       let e1 := e.fileWritten id o
       let e2 := e1.setOp { o with pingBase := some e.now }
-      some { (e2.startAckTimeout id) with current := none }
+      let e3 := e2.startAckTimeout id
+      some { (e3.armPingDeadline o) with current := none }
 
 def encErrRes : EncErr â†’ Res
   | .encodingFailure => .err "EncodingFailure"
@@ -1023,6 +1030,23 @@ def Engine.serviceQueue (e : Engine) (all : Bool) (cap prefill : Nat) : Engine Ã
   let produced := e1.outBytes.drop used
   ({ e1 with outBytes := produced, pendingWrite := if produced.isEmpty then e1.pendingWrite else true }, r)
 
+def isPingOp (e : Engine) (id : Nat) : Bool :=
+  match e.op? id with
+  | some { packet := .pingreq, .. } => true
+  | _ => false
+
+/-- `is_ping_in_queue`: a PINGREQ is queued or partially encoded -/
+def Engine.pingQueued (e : Engine) : Bool :=
+  (match e.current with | some id => isPingOp e id | none => false) || e.highQ.any (isPingOp e)
+
+/-- a PINGREQ goes to the front of the high-priority queue, unless one is still waiting behind the operation being
+    written (it is not doubled up); `none` = enqueue of an operation that does not exist -/
+def Engine.queuePing (e : Engine) : Option Engine :=
+  if e.pingQueued then some e
+  else
+    let (e1, id) := e.createOp .pingreq none
+    e1.enqueue id .high true
+
 /-- `service_keep_alive` -/
 def Engine.serviceKeepAlive (e : Engine) : Engine Ã— Res :=
   match e.pingDeadline with
@@ -1031,16 +1055,15 @@ def Engine.serviceKeepAlive (e : Engine) : Engine Ã— Res :=
     match e.nextPing with
     | some np =>
       if e.now â‰¥ np then
-        let (e1, id) := e.createOp .pingreq none
-        match e1.enqueue id .high true with
-        | none => (e1, .panic "enqueue_nonexistent_operation")
+        match e.queuePing with
+        | none => (e, .panic "enqueue_nonexistent_operation")
         | some e2 =>
           match e2.settings with
           | none => (e2, .panic "unwrap_settings@service_keep_alive")
           | some s =>
             let ka := s.serverKeepAlive
-            let e3 := { e2 with pingDeadline := some (e.now + min e.cfg.pingTimeout (ka * 500)) }
-            (if ka > 0 then { e3 with nextPing := some (e.now + ka * 1000) } else e3, .ok)
+            -- the PINGRESP deadline is armed when the PINGREQ has been written (`onFullyWritten`)
+            (if ka > 0 then { e2 with nextPing := some (e.now + ka * 1000) } else e2, .ok)
       else (e, .ok)
     | none => (e, .ok)
 
